@@ -174,9 +174,11 @@ CHECKS = {
         "rule": ("rapid draws (family, files with sizes, copies/renames, edits). Non-trivial: an edited file of >= 8 blocks with >= 1 "
                  "length-changing edit (where a de-synchronised rolling hash would blow the bound); for the identical/rename families a "
                  "multi-block file that is kept, renamed or duplicated. Distinct: SHA-1 of the spec."),
-        "assumptions": ["high-entropy streams do not collide on 64KiB blocks by chance"],
+        "assumptions": ["high-entropy streams do not collide on 64KiB blocks by chance",
+                        "in a fifth of the cases the same DiffContext writes the patch twice (a retry on a new writer): wharf's FreshBytes/ReusedBytes are cumulative, so the second call is "
+                        "judged by the counters' increase, which must equal the first call's, and by byte-equal patches"],
         "required_classes": {"quick": ["family:identical", "family:renames", "edits:length-changing", "edits:k=3", "old-signature:read-back-from-a-signature-stream",
-                                       "content:blocks-with-weak-hash-0", "old:two-files-differing-in-a-block-with-the-same-weak-hash"],
+                                       "content:blocks-with-weak-hash-0", "old:two-files-differing-in-a-block-with-the-same-weak-hash", "differ:same-DiffContext-used-twice"],
                              "thorough": ["family:identical", "family:renames", "edits:length-changing", "edits:k=4", "edited-file:>4MiB"]},
         "stages": [rapid("freshbytes", "TestProp", 3600, 96000, qs=16, ts=16, qt=600, tt=5400)],
     },
